@@ -40,6 +40,7 @@ Export ==
                check |-> [log |-> CheckLog(tree, failAt), failed |-> CheckFails(tree, failAt),
                           schemas |-> [n \in 1..Len(tree) |-> FinalSchema(tree, failAt, n)]],
                check2 |-> SecondCheck(tree),
+               eval2 |-> IF Evaluable(tree) THEN SecondEval(tree) ELSE [log |-> <<>>, failed |-> FALSE],
                transform |-> [log |-> tl[1], failed |-> tl[2], result |-> IF tl[2] THEN "" ELSE RenderT(tree, 1)],
                api |-> LET a1 == ParseApiLog(tree, failAt, 0) a2 == ParseApiLog(tree, 0, failAt) IN
                        [tlog1 |-> a1[1], clog1 |-> a1[2], failed1 |-> a1[3], tlog2 |-> a2[1], clog2 |-> a2[2], failed2 |-> a2[3]],
